@@ -3,6 +3,7 @@ package main
 import (
 	"fmt"
 	"go/types"
+	"strings"
 
 	"golang.org/x/tools/go/ssa"
 )
@@ -301,6 +302,10 @@ func (e *Engine) execSelect(st *State, fr *Frame, x *ssa.Select, k func(*State))
 				v := e.freshTyped(s, et, "selrecv")
 				ok := e.sym.Fresh("recvok", SBool)
 				s.Assume(Implies(Not(ok), e.chanClosed(s, chans[i], nil)))
+				if strings.HasPrefix(chans[i].S, "(ctx_done ") {
+					// nothing is ever sent on a context's Done channel: a receive means it is closed
+					s.Assume(e.chanClosed(s, chans[i], nil))
+				}
 				recvOk = ok
 				tu = append(tu, v)
 			} else {
@@ -360,13 +365,28 @@ func (e *Engine) wakeObligations(st *State, fr *Frame, x *ssa.Select, chans []Te
 		return
 	}
 	for _, w := range ct.Wakes {
-		cond := e.evalClause(st, fr, w, nil)
+		// "wakes closed(ch)" / "wakes done(ctx)": every blocking select of the function must be
+		// woken when that channel is closed while it waits, i.e. it must have a receive case on
+		// that very channel. (Whether the channel is closed at the moment the select is reached is
+		// irrelevant: the close may happen later, from another goroutine.)
+		var target Term
+		if c, ok := w.E.(ECall); ok && (c.Fn == "closed" || c.Fn == "done") && len(c.Args) == 1 {
+			env := &SpecEnv{e: e, st: st, fr: fr, vars: map[string]specVal{}, oldHeap: fr.oldHeap, oldNext: fr.oldNext, pkg: pkgPathOf(fr.fn)}
+			v := env.eval(c.Args[0])
+			if c.Fn == "done" {
+				target = e.ctxDone(v.v)
+			} else {
+				target = v.v.(Term)
+			}
+		} else {
+			sfail("wakes clause must be closed(channel) or done(ctx)")
+		}
 		var alts []Term
 		for i, ss := range x.States {
 			if ss.Dir == types.RecvOnly {
-				alts = append(alts, e.chanClosed(st, chans[i], nil))
+				alts = append(alts, Eq(chans[i], target))
 			}
 		}
-		e.Assert(st, fr, "wakes", w.Label+"@select"+fr.sites[x], Implies(cond, Or(alts...)))
+		e.Assert(st, fr, "wakes", w.Label+"@select"+fr.sites[x], Or(alts...))
 	}
 }
